@@ -9,6 +9,13 @@ CAUGHT = {
     "C04-2": {"C04": "violation", "C07": "violation"}, "C07-2": {"C07": "violation"}, "C08-2": {"C08": "violation"},
     "C11-2": {"C11": "violation"}, "C12-2": {"C12": "violation"}, "C13-2": {"C13": "violation", "C12": "tie"},
     "C14-2": {"C14": "violation"}, "C17-2": {"C17": "violation"}, "C20-2": {"C20": "violation"},
+    "C05-2": {"C05": "violation"}, "C06-2": {"C06": "violation"}, "C09-2": {"C09": "violation"}, "C10-2": {"C10": "violation"},
+    "C15-2": {"C15": "violation"}, "C16-2": {"C16": "violation"}, "C18-2": {"C18": "violation"}, "C19-2": {"C19": "violation"},
+    "C01-3": {"C01": "violation"}, "C02-3": {"C02": "violation"}, "C03-3": {"C03": "violation"},
+    "C04-3": {"C05": "violation", "C04": "not reported (needs two concurrent requests: C05's domain)"},
+    "C07-3": {"C04": "violation", "C07": "tie"}, "C08-3": {"C08": "violation", "C07": "violation"}, "C11-3": {"C11": "violation"},
+    "C12-3": {"C12": "violation"}, "C13-3": {"C13": "violation"}, "C14-3": {"C14": "violation"},
+    "C17-3": {"C17": "violation"}, "C20-3": {"C20": "violation"},
 }
 for d in sorted(os.listdir(root)):
     p = os.path.join(root, d)
